@@ -410,6 +410,19 @@ def check_guard(rep, db, f, inst, created, backend_call, outcome):
             if not ok:
                 rep.violation(rule, site(f), "%s is reachable without a dominating `status == CREATED` test" % backend_call, f["loc"], inst)
                 return
+            # nothing of the sandbox's own bookkeeping may be touched before the status was tested: a call refused for the status
+            # must leave no trace (e.g. a key in callback_keys that makes the next, legitimate, registration look like a duplicate)
+            muts = [i for i, e in enumerate(evs) if e.kind == "CALL" and q.short(e.a) in owners.MUTATORS and e.c is not None and e.c[:1] == ("addr",) and
+                    isinstance(e.c[1], tuple) and e.c[1][:2] == ("fld", owners.THIS_OBJ) and i < be[0]]
+            for i in muts:
+                tested = False
+                for j, e in loads:
+                    if j < i and ("cmp", "==", (e.extra or {}).get("ret"), C(created)) in q.conds_before(p, i):
+                        tested = True
+                if not tested:
+                    rep.violation(rule, site(f) + " [bookkeeping before the status test]", "%s of the member %s happens before the `status == CREATED` test: a call that is then refused has already changed the sandbox's bookkeeping" % (
+                        q.short(evs[i].a), fmt(evs[i].c)[:60]), evs[i].loc or f["loc"], inst)
+                    return
         else:
             if loads:
                 n_not += 1
